@@ -328,11 +328,15 @@ __CPROVER_ensures(!__CPROVER_return_value == !xv_tmg.expired_ret && xv_tmg.expir
         (((q)->ares_timer_id >= 0 && (q)->ares_timer_id == xv_tk) ==> xv_tmg.tk_live) && (((q)->overall_timer_id >= 0 && (q)->overall_timer_id == xv_tk) ==> xv_tmg.tk_live) && \
         (xv_tmg.tk_live ==> (xv_tk >= 0 && (xv_tk == (q)->ares_timer_id || xv_tk == (q)->overall_timer_id))) && \
         xv_timers == XQ_HELD_T((q)->ares_timer_id) + XQ_HELD_T((q)->overall_timer_id))
-#define XQ_GHOST_RANGES (XR_RANGE(40) && XV_TD_UCNT_OK(xv_tmg.scheds) && XV_TD_UCNT_OK(xv_tmg.cancels) && XV_TD_UCNT_OK(xv_tmg.expireds) && XV_TD_UCNT_OK(xv_tmg.destroys) && \
-        XV_TD_UCNT_OK(xv_tmg.creates) && XV_TD_CNT_OK(xv_timers) && XV_TD_CNT_OK(xv_tmgrs) && xv_tmgrs > 0 && \
-        XV_TD_UCNT_OK(xv_ar.process_fd_n) && XV_TD_UCNT_OK(xv_ar.process_n) && XV_TD_UCNT_OK(xv_ar.getsock_n) && XV_TD_UCNT_OK(xv_ar.timeout_n) && XV_TD_UCNT_OK(xv_ar.destroys) && \
-        XV_TD_UCNT_OK(xv_ar.inits) && XV_TD_UCNT_OK(xv_ar.gai_n) && XV_TD_UCNT_OK(xv_ar.free_n) && XV_TD_UCNT_OK(xv_ar.cb_n) && XV_TD_UCNT_OK(xv_ar.tv2f_n) && XV_TD_UCNT_OK(xv_ar.pfd_j) && \
-        XV_TD_CNT_OK(xv_ar.channels) && xv_ar.channels > 0 && XV_TD_CNT_OK(xv_ar.results) && xv_tmg.mgr_fd >= 0 && xv_tmg.last_id < (1L << 62) - 64)
+/* ranges of the ghost counters (no overflow in the models' own arithmetic); s: room the function needs, callees need less */
+#define XQ_U(c, s) ((c) < (unsigned)(XV_TD_CNT_MAX - (s)))
+#define XQ_GHOST_RANGES_S(s) (XR_RANGE(40 + (s)) && XQ_U(xv_tmg.scheds, s) && XQ_U(xv_tmg.cancels, s) && XQ_U(xv_tmg.expireds, s) && XQ_U(xv_tmg.destroys, s) && \
+        XQ_U(xv_tmg.creates, s) && xv_timers >= 0 && xv_timers < XV_TD_CNT_MAX - (s) && XV_TD_CNT_OK(xv_tmgrs) && xv_tmgrs > 0 && \
+        XQ_U(xv_ar.process_fd_n, s) && XQ_U(xv_ar.process_n, s) && XQ_U(xv_ar.getsock_n, s) && XQ_U(xv_ar.timeout_n, s) && XQ_U(xv_ar.destroys, s) && \
+        XQ_U(xv_ar.inits, s) && XQ_U(xv_ar.gai_n, s) && XQ_U(xv_ar.free_n, s) && XQ_U(xv_ar.cb_n, s) && XQ_U(xv_ar.tv2f_n, s) && XQ_U(xv_ar.pfd_j, s) && \
+        XV_TD_CNT_OK(xv_ar.channels) && xv_ar.channels > 0 && xv_ar.results >= 0 && xv_ar.results < XV_TD_CNT_MAX - (s) && xv_tmg.mgr_fd >= 0 && \
+        xv_tmg.last_id < (1L << 62) - 64 - (s) && xv_tmg.tk_timeout == xv_tmg.tk_timeout /* not NaN: it is compared */)
+#define XQ_GHOST_RANGES XQ_GHOST_RANGES_S(100)
 /* The query object, its channel and its name are BUILT BY THE HARNESS (malloc, arbitrary content: xv_q_any() in harness/timerdns/
  * _unit_dns.h), not by __CPROVER_is_fresh: the c-ares model keeps the callback argument (xv_ar.arg = the query) and calls
  * query_cb through it, and a ghost pointer that is merely ASSUMED equal to an is_fresh object cannot be dereferenced (HOWTO trap). */
@@ -343,17 +347,32 @@ __CPROVER_ensures(!__CPROVER_return_value == !xv_tmg.expired_ret && xv_tmg.expir
                   (xv_ar.pending ==> xv_ar.arg == (void *)(q)) && ((q)->state == query_state_in_progress ==> (q)->overall_timer_id >= 0))
 #define XQ_ASSIGNS(q) __CPROVER_object_whole(q), xv_errno, xv_xr, xv_tmg, xv_ar
 
+#define XQ_FAM_OK(f) ((f) == AF_INET || (f) == AF_INET6)
 /* ---- get_ips ---------------------------------------------------------------------------------------------------------------------- */
-#ifndef XV_NODES_MAX
-#define XV_NODES_MAX 34
-#endif
 #ifndef XV_IPS_CAP_MAX
 #define XV_IPS_CAP_MAX XCM_DNS_MAX_RESULT_SIZE
 #endif
 #ifndef XV_IPS_CAP_MIN
 #define XV_IPS_CAP_MIN 0
 #endif
-#define XQ_FAM_OK(f) ((f) == AF_INET || (f) == AF_INET6)
+/* ---- get_ip: one node of the answer list -> one struct xcm_addr_ip (ENFORCED by job get_ip; job get_ips@cap32 REPLACES it: 33 inlined
+ * copies through the memcpy model took more than 10 minutes) */
+#define XQ_SA_OFF(fam) ((fam) == AF_INET ? offsetof(struct sockaddr_in, sin_addr) : offsetof(struct sockaddr_in6, sin6_addr))
+#define XQ_SA_LEN(fam) ((fam) == AF_INET ? 4u : 16u)
+static void get_ip(const char *domain_name, struct ares_addrinfo_node *node, struct xcm_addr_ip *ip, void *log_ref)
+#ifdef XV_TD_GETIP_JOB
+__CPROVER_requires(__CPROVER_is_fresh(node, sizeof(*node)) && __CPROVER_is_fresh(ip, sizeof(*ip)))
+__CPROVER_requires(__CPROVER_is_fresh(node->ai_addr, sizeof(struct sockaddr_in6)))
+#else
+__CPROVER_requires(__CPROVER_r_ok(node, sizeof(*node)) && __CPROVER_w_ok(ip, sizeof(*ip)) && __CPROVER_r_ok(node->ai_addr, sizeof(struct sockaddr_in6)))
+#endif
+/* TRUSTED(c-ares): ares_getaddrinfo answers with IPv4/IPv6 nodes only (the code asserts it) */
+__CPROVER_requires(XQ_FAM_OK(node->ai_family))
+__CPROVER_assigns(__CPROVER_object_upto(ip, sizeof(*ip)))
+/* PO[C13] get_ip.family_and_address_copied */
+__CPROVER_ensures(ip->family == node->ai_family && (xv_mc < XQ_SA_LEN(node->ai_family) ==> \
+                  ((const uint8_t *)&ip->addr)[xv_mc] == ((const uint8_t *)node->ai_addr)[XQ_SA_OFF(node->ai_family) + xv_mc]))
+;
 static int get_ips(const char *domain_name, struct ares_addrinfo *result, struct xcm_addr_ip *ips, int capacity, void *log_ref)
 /* (the node list is built by the harness: xv_ar.cb_nodes nodes, node number xv_j has family xv_ar.node_fam and address byte xv_ar.node_b at offset xv_mc) */
 /* (the buffer is an array of XV_IPS_CAP_MAX entries whatever `capacity` says -- an object of symbolic size costs a factor 10 --;
@@ -384,7 +403,7 @@ __CPROVER_requires(__CPROVER_rw_ok(XQC(arg), sizeof(struct xcm_dns_query)))
 #endif
 /* TRUSTED(c-ares) A1: no ARES_ENOMEM; A2: exactly one callback, so a status other than "cancelled/destroyed" finds the query in progress */
 __CPROVER_requires(status != ARES_ENOMEM && Q_STATE_OK(XQC(arg)) && (!XQ_CB_IGNORED(status) ==> XQC(arg)->state == query_state_in_progress))
-__CPROVER_requires(status == ARES_SUCCESS ==> (result != NULL && xv_ar.cb_nodes >= 0 && xv_ar.cb_nodes <= XV_NODES_MAX && XV_TD_CNT_OK(xv_ar.results) && xv_ar.results > 0 && XV_TD_UCNT_OK(xv_ar.free_n)))
+__CPROVER_requires(status == ARES_SUCCESS ==> (result != NULL && xv_ar.cb_nodes >= 0 && xv_ar.cb_nodes <= XV_NODES_MAX && xv_ar.results > 0 && xv_ar.results <= XV_TD_CNT_MAX && XV_TD_UCNT_OK(xv_ar.free_n)))
 __CPROVER_assigns(XQC(arg)->state, XQC(arg)->ips_len, __CPROVER_object_upto(XQC(arg)->ips, sizeof(XQC(arg)->ips)), xv_ar.free_n, xv_ar.results)
 __CPROVER_frees(status == ARES_SUCCESS: result)
 /* PO[C13] query_cb.success_with_an_address_is_successful: the first min(nodes, 32) addresses are stored */
@@ -427,8 +446,12 @@ __CPROVER_ensures(Q_OK(XQC(arg)))
 static void update_xpoll(struct xcm_dns_query *query)
 __CPROVER_requires(XQ_FRESH(query))
 __CPROVER_requires(XQ_CHANNEL_FRESH(query))
-__CPROVER_requires(XQ_OK(query) && XQ_GHOST_RANGES && XQ_NREGS(query) == xv_g_nregs)
-__CPROVER_assigns(XQ_ASSIGNS(query))
+__CPROVER_requires(XQ_OK(query) && XQ_GHOST_RANGES_S(0) && XQ_NREGS(query) == xv_g_nregs)
+/* (field by field: where this contract REPLACES the function, everything not named here keeps its value) */
+__CPROVER_assigns(__CPROVER_object_upto(query->channel_fd_reg_ids, sizeof(query->channel_fd_reg_ids)), __CPROVER_object_upto(query->channel_fds, sizeof(query->channel_fds)), \
+                  query->channel_fd_mask, query->ares_timer_id, xv_xr, TMG_SCHED_ASSIGNS, xv_tmg.cancels, \
+                  xv_ar.getsock_n, xv_ar.gs_mask, xv_ar.gs_fd, xv_ar.timeout_n, xv_ar.to_null, xv_ar.to_sec, xv_ar.to_usec, xv_ar.to_ptr, \
+                  xv_ar.tv2f_ret, xv_ar.tv2f_n, xv_ar.tv2f_sec, xv_ar.tv2f_usec)
 /* PO[C04] update_xpoll.in_progress_registers_every_cares_descriptor_and_arms_the_cares_timer */
 __CPROVER_ensures(query->state == query_state_in_progress ==> (XQ_CARES_FDS_REGISTERED(query) && XQ_CARES_TIMER_ARMED(query, 0, __CPROVER_old(query->ares_timer_id)) && xv_ar.getsock_n == __CPROVER_old(xv_ar.getsock_n) + 1))
 /* PO[C04] update_xpoll.finished_query_wakes_the_socket */
@@ -438,8 +461,9 @@ __CPROVER_ensures(XQ_CONSERVED(query, xv_g_nregs, 0))
 __CPROVER_ensures(Q_OK(query) && query->channel->xv_live == 1 && query->xpoll != NULL && query->timer_mgr != NULL)
 __CPROVER_ensures(XQ_REGS_OK(query))
 __CPROVER_ensures(XQ_TIMERS_OK(query))
+/* only the ares timer is touched: any other timer (xv_tk: the overall timer, for one) keeps its state */
+__CPROVER_ensures((xv_tk != query->ares_timer_id && xv_tk != __CPROVER_old(query->ares_timer_id)) ==> TMG_TK_SAME)
 __CPROVER_ensures((xv_ar.pending ==> xv_ar.arg == (void *)query) && (query->state == query_state_in_progress ==> query->overall_timer_id >= 0))
-__CPROVER_ensures(XV_SAME(query->state) && XV_SAME(query->overall_timer_id) && XV_SAME(query->ips_len) && XV_SAME(xv_errno) && XV_SAME(xv_ar.cb_n) && !xv_ar.pending == !__CPROVER_old(xv_ar.pending))
 ;
 
 /* ---- process_in_progress / xcm_dns_query_process -------------------------------------------------------------------------------------------- */
@@ -548,10 +572,11 @@ struct xcm_dns_query *xcm_dns_resolve(const char *domain_name, struct xpoll *xpo
 __CPROVER_requires(xpoll != NULL && __CPROVER_is_fresh(domain_name, 4))
 /* caller obligation: not NaN (dns_opts_set_timeout rejects it) */
 __CPROVER_requires(timeout == timeout && timeout <= XV_DNS_TIMEOUT_MAX)
-__CPROVER_requires(XR_RANGE(40) && xv_xr.regs >= 0 && !xv_xr.rf_live && XV_TD_UCNT_OK(xv_tmg.scheds) && XV_TD_UCNT_OK(xv_tmg.cancels) && XV_TD_UCNT_OK(xv_tmg.expireds) && XV_TD_UCNT_OK(xv_tmg.destroys) && \
-                   XV_TD_UCNT_OK(xv_tmg.creates) && XV_TD_CNT_OK(xv_tmgrs) && xv_timers == 0 && !xv_tmg.tk_live && \
-                   XV_TD_UCNT_OK(xv_ar.getsock_n) && XV_TD_UCNT_OK(xv_ar.timeout_n) && XV_TD_UCNT_OK(xv_ar.inits) && XV_TD_UCNT_OK(xv_ar.gai_n) && XV_TD_UCNT_OK(xv_ar.free_n) && \
-                   XV_TD_UCNT_OK(xv_ar.cb_n) && XV_TD_UCNT_OK(xv_ar.tv2f_n) && XV_TD_CNT_OK(xv_ar.channels) && XV_TD_CNT_OK(xv_ar.results) && xv_ar.results == 0 && !xv_ar.pending)
+__CPROVER_requires(XR_RANGE(200) && !xv_xr.rf_live && XQ_U(xv_tmg.scheds, 100) && XQ_U(xv_tmg.cancels, 100) && XQ_U(xv_tmg.expireds, 100) && XQ_U(xv_tmg.destroys, 100) && \
+                   XQ_U(xv_tmg.creates, 100) && xv_tmgrs >= 0 && xv_tmgrs < XV_TD_CNT_MAX - 100 && xv_timers == 0 && !xv_tmg.tk_live && \
+                   XQ_U(xv_ar.process_fd_n, 100) && XQ_U(xv_ar.process_n, 100) && XQ_U(xv_ar.getsock_n, 100) && XQ_U(xv_ar.timeout_n, 100) && XQ_U(xv_ar.destroys, 100) && \
+                   XQ_U(xv_ar.inits, 100) && XQ_U(xv_ar.gai_n, 100) && XQ_U(xv_ar.free_n, 100) && XQ_U(xv_ar.cb_n, 100) && XQ_U(xv_ar.tv2f_n, 100) && XQ_U(xv_ar.pfd_j, 100) && \
+                   xv_ar.channels >= 0 && xv_ar.channels < XV_TD_CNT_MAX - 100 && xv_ar.results == 0 && !xv_ar.pending && xv_g_nregs == 0 && xv_tmg.tk_timeout == xv_tmg.tk_timeout)
 __CPROVER_assigns(xv_errno, xv_xr, xv_tmg, xv_ar)
 __CPROVER_ensures(__CPROVER_return_value == NULL || __CPROVER_is_fresh(__CPROVER_return_value, sizeof(struct xcm_dns_query)))
 /* PO[C08] xcm_dns_resolve.failure_leaves_nothing_behind: no timerfd (EMFILE ...) or no resolver configuration (ENOENT): NULL, errno, no timer manager, no registration, no channel */
@@ -560,8 +585,10 @@ __CPROVER_ensures(__CPROVER_return_value == NULL ==> (XV_ERRNO_OK(xv_errno) && X
 __CPROVER_ensures((__CPROVER_return_value == NULL && xv_ar.inits != __CPROVER_old(xv_ar.inits)) ==> xv_errno == ENOENT)
 /* PO[C13] xcm_dns_resolve.overall_timer_has_the_configured_timeout: dns.timeout (10 s when not configured) bounds the whole resolution; c-ares is given 1 s per try and timeout + 1 tries */
 __CPROVER_ensures(__CPROVER_return_value != NULL ==> ((__CPROVER_return_value->overall_timer_id == xv_tk ==> (xv_tmg.tk_live && xv_tmg.tk_timeout == XQ_EFF_TIMEOUT(timeout))) && \
-                  __CPROVER_return_value->overall_timer_id >= 0 && \
-                  xv_ar.inits == __CPROVER_old(xv_ar.inits) + 1 && xv_ar.optmask == (ARES_OPT_TIMEOUTMS | ARES_OPT_TRIES) && xv_ar.timeout_ms == 1000 && xv_ar.tries == (int)(XQ_EFF_TIMEOUT(timeout) / 1) + 1))
+                  __CPROVER_return_value->overall_timer_id >= 0))
+__CPROVER_ensures(__CPROVER_return_value != NULL ==> (xv_ar.inits == __CPROVER_old(xv_ar.inits) + 1 && xv_ar.optmask == (ARES_OPT_TIMEOUTMS | ARES_OPT_TRIES) && xv_ar.timeout_ms == 1000))
+/* (one try per second of the overall timeout, plus one: the sum is rounded to double BEFORE it is truncated) */
+__CPROVER_ensures(__CPROVER_return_value != NULL ==> xv_ar.tries == (int)(XQ_EFF_TIMEOUT(timeout) / 1 + 1))
 /* PO[C13] xcm_dns_resolve.lookup_started_once: one ares_getaddrinfo whose callback argument is the query; the query is in progress, or c-ares has answered at once */
 __CPROVER_ensures(__CPROVER_return_value != NULL ==> (xv_ar.gai_n == __CPROVER_old(xv_ar.gai_n) + 1 && xv_ar.arg == (void *)__CPROVER_return_value && \
                   (!xv_ar.pending == (xv_ar.cb_n != __CPROVER_old(xv_ar.cb_n))) && (xv_ar.pending ==> __CPROVER_return_value->state == query_state_in_progress) && \
